@@ -75,3 +75,16 @@ Definition ck_close_cb (s : check_state) (a : account) : presult check_state :=
 
 Definition check_proc (lenient : bool) : processor check_state :=
   mkProc None None (Some ck_open_cb) None (Some ck_posting_cb) (Some (ck_balance_cb lenient)) (Some ck_close_cb) None.
+
+(* ---- the fully repaired Checker.balance (findings C04-zero-assertion, C04-nonAL-assertion):
+   after the open test, an assertion on an account that is not an asset or liability account is
+   not compared with anything (quantities are tracked for A/L accounts only); on A/L accounts a
+   position that was never booked counts as zero ([ck_balance_cb true]).  [check_proc true] and
+   [check_proc false] keep their meaning. *)
+Definition ck_balance_fixed (s : check_state) (a : list balance) (b : balance) : presult check_state :=
+  if negb (is_open s (bal_acc b)) then RErr k_not_open (acc_name (bal_acc b))
+  else if negb (is_AL (bal_acc b)) then ROk s
+  else ck_balance_cb true s a b.
+
+Definition check_proc_fixed : processor check_state :=
+  mkProc None None (Some ck_open_cb) None (Some ck_posting_cb) (Some ck_balance_fixed) (Some ck_close_cb) None.
